@@ -203,8 +203,18 @@ fn text_case() -> BoxedStrategy<TextCase> {
     .prop_flat_map(|(p, l)| {
       let proto = Proto::ALL[pick(p, 8)];
       let layer = Layer::ALL[pick(l, 3)];
-      (token_text(proto), prop_oneof![Just(None), Just(Some("foo".to_string())), gen::unicode(6).prop_map(Some)])
-        .prop_map(move |(token, footer)| TextCase { proto, layer, token, footer })
+      let header = proto.header();
+      prop_oneof![
+        5 => (token_text(proto), prop_oneof![Just(None), Just(Some("foo".to_string())), gen::unicode(6).prop_map(Some)])
+          .prop_map(move |(token, footer)| TextCase { proto, layer, token, footer }),
+        // a footer SEGMENT that decodes to structured / special text (JSON documents, their unbalanced relatives, key ids, BOMs ...),
+        // presented with no expected footer, the same text, or another one
+        2 => (vec(any::<u8>(), 0..200), prop_oneof![3 => gen::doc_text(), 2 => gen::text()], 0u8..3).prop_map(move |(bytes, t, k)| {
+          let f = t.render();
+          let token = join_token(header, &bytes, Some(&b64(f.as_bytes())));
+          TextCase { proto, layer, token, footer: match k { 0 => None, 1 => Some(f), _ => Some("foo".to_string()) } }
+        }),
+      ]
     })
     .boxed()
 }
@@ -286,6 +296,16 @@ fn hex_cases() -> impl Iterator<Item = HexCase> {
         v.push(HexCase { n, text: uni });
       }
     }
+    // beyond the stated 0..=200: every length up to 1100 and the neighbours of every power of two up to 2^20
+    for len in (201..=1100usize).chain((11..=20).flat_map(|k| [(1usize << k) - 1, 1 << k, (1 << k) + 1, (1 << k) + 2])) {
+      let valid: String = (0..len).map(|i| b"0123456789abcdefABCDEF"[(i * 7 + len) % 22] as char).collect();
+      if len % 97 == 0 || len > 1100 {
+        let mut bad = valid.clone();
+        bad.replace_range(len / 2..len / 2 + 1, "g");
+        v.push(HexCase { n, text: bad });
+      }
+      v.push(HexCase { n, text: valid });
+    }
     // strings whose UTF-8 byte length is exactly 2N with one multi-byte character at every byte offset
     let total = 2 * n as usize;
     for (ch, w) in [('é', 2usize), ('€', 3), ('😀', 4)] {
@@ -304,6 +324,7 @@ fn hex_cases() -> impl Iterator<Item = HexCase> {
 fn hex_case() -> BoxedStrategy<HexCase> {
   (any::<u16>(), prop_oneof![
     3 => vec(any::<u16>(), 0..=200).prop_map(|v| v.into_iter().map(|i| b"0123456789abcdefABCDEF"[pick(i, 22)] as char).collect::<String>()),
+    1 => vec(any::<u16>(), 200..=3000).prop_map(|v| v.into_iter().map(|i| b"0123456789abcdefABCDEF"[pick(i, 22)] as char).collect::<String>()),
     1 => gen::unicode(100),
     1 => gen::jsonish(200),
   ])
@@ -472,8 +493,8 @@ pub fn run(ctx: &Ctx) -> EvidenceMeta {
   EvidenceMeta {
     rule: "length-sweep: each of the 8 headers + base64url of a payload of every decoded length 0..=400 x 3 contents x with/without footer segment x 3 layers (exhaustive); \
            prefixes-and-deletions: every prefix, suffix and single-character deletion of an authentic token per protocol x layer (exhaustive); \
-           hex-key-strings: Key::<N>::try_from for N in {24,32,48,49,64} on valid/invalid hex of every length 0..=200 (exhaustive) plus generated strings; \
-           arbitrary-text: generated Unicode, 0-6 segments, right header + base64-alphabet noise / random bytes / padding / trailing dots, 1 MiB inputs; \
+           hex-key-strings: Key::<N>::try_from for N in {24,32,48,49,64} on valid/invalid hex of every length 0..=200 (exhaustive), valid hex of every length to 1100 and around every power of two to 2^20, plus generated strings to 3000 characters; \
+           arbitrary-text: generated Unicode, 0-6 segments, right header + base64-alphabet noise / random bytes / padding / trailing dots, footer segments that decode to JSON documents (key sets, deep nesting, many empty containers), their unbalanced relatives and special strings, 1 MiB inputs; \
            authentic-token-hostile-claims: authentically encrypted/signed payloads whose exp/nbf/other members carry calendar extremes (year 0000/9999 with offsets, leap seconds, 40 fraction digits), any well-formed or ill-formed timestamp, arbitrary JSON, or that are not objects / not JSON at all. \
            Oracle: catch_unwind around the entry point; any unwind is a violation keyed by panic location. \
            Non-trivial = the input has the right header and a decodable payload (reaches the slicing code) or is a hex-key string; distinct by input."
